@@ -868,6 +868,17 @@ func c03Worker(c *core.Collector, x *Ctx) {
 				}
 			}
 		case "P0x8103", "T0x0104":
+			for _, id := range []int{0xF364, 0xF365, 0xF366, 0xF367, 0xF370, 0xF000, 0xFFFF, 0x0110, 0x01FF, 0x7FFF, 0x8000} {
+				// vendor and active-safety parameter IDs with every value length (renderers that know a vendor layout index into the value)
+				for l := 0; l <= 80; l++ {
+					b := []byte{1, 0, 0, byte(id >> 8), byte(id), byte(l)}
+					b = append(b, g.Bytes(l)...)
+					if t.TypeName == "T0x0104" {
+						b = append([]byte{g.U8(), g.U8()}, b...)
+					}
+					do(b, true, "tlv-param")
+				}
+			}
 			for id := 0; id <= 0x120; id++ {
 				for l := 0; l <= 12; l++ {
 					b := []byte{1, 0, 0, byte(id >> 8), byte(id), byte(l)}
@@ -958,12 +969,46 @@ func c03Worker(c *core.Collector, x *Ctx) {
 					inputs = append(inputs, body[:cut])
 				}
 			}
+			if tc.Type == "T0x0704" && i < 16 {
+				// batch items whose 16-bit length field is at its limit (an item length + 2 computed in 16 bits wraps to 0 or 1:
+				// the cursor stops advancing and the same item is parsed Num times), content = a location block and empty
+				// additional-information items, followed by an ordinary item
+				for _, il := range []int{0xFFFB, 0xFFFC, 0xFFFD, 0xFFFE, 0xFFFF} {
+					for _, num := range []int{1, 2, 3, 0x100, 0xFFFF} {
+						b := []byte{byte(num >> 8), byte(num), 1, byte(il >> 8), byte(il)}
+						b = append(b, body[5:5+28]...)
+						if (il-28)%2 == 1 {
+							b = append(b, 0x07, 0x01, 0x55)
+						}
+						for len(b) < 5+il {
+							b = append(b, 0x07, 0x00)
+						}
+						b = append(b, body[3:3+30]...)
+						if (il+num+i)%4 == 0 { // sampled: 25 such bodies per target would take a minute
+							inputs = append(inputs, b)
+						}
+					}
+				}
+			}
 			for _, in := range inputs {
 				c.Evals(4)
 				cs := c03Case{Kind: "c03", Target: tgt.Name, Version: int(tc.Ver), Gen: "big-body", Input: core.HexCap(in, 64) + fmt.Sprintf("…(%d bytes)", len(in))}
-				c03RunCase(tgt, tc.Ver, in, nil, func(sig, detail string) {
-					c.Violate(sig, detail+fmt.Sprintf(" [body of %d bytes, %s]", len(in), tc.Name), cs)
-				})
+				done := make(chan struct{})
+				go func() {
+					defer close(done)
+					c03RunCase(tgt, tc.Ver, in, nil, func(sig, detail string) {
+						c.Violate(sig, detail+fmt.Sprintf(" [body of %d bytes, %s]", len(in), tc.Name), cs)
+					})
+				}()
+				select {
+				case <-done:
+				case <-time.After(40 * time.Second):
+					c.Violate("hang|"+tgt.Name+"|no result within 20 s", fmt.Sprintf("decoding a body of %d bytes did not terminate promptly (40 s for parse + render in all presentations)", len(in)), cs)
+					if x.Out != "" {
+						c.WriteTo(x.Out)
+					}
+					os.Exit(3)
+				}
 				nbig.Add(1)
 				c.NonTrivial(core.HashBytes([]byte(tgt.Name), in[:min(len(in), 64)], []byte(fmt.Sprint(len(in)))))
 			}
